@@ -234,7 +234,8 @@ def Peer.release (p : Peer) : Peer :=
     let last := ((splitByte (trimRightCRLF rep) 10).getLast?).getD []
     { p with script := t, readable := p.readable ++ rep, data := "354".b.isPrefixOf last }
   | [] =>
-    { p with readable := p.readable ++ p.defRep }
+    if p.defRep.isEmpty then { p with eof := true }      -- an active peer with nothing left to say goes away
+    else { p with readable := p.readable ++ p.defRep }
 
 def Peer.feed (p : Peer) : Bytes → Peer
   | [] => p
@@ -291,13 +292,31 @@ structure C where
   out : Bytes := []                     -- octets written during the current call
   carry : Bytes := []                   -- octets flushed during `Write` calls, accounted to the next other call
   wbuf : Bytes := []                    -- textproto's bufio.Writer: stuffed message octets not yet flushed
+  -- STARTTLS (client side).  `crypto/tls` is abstracted: a handshake succeeds iff the peer speaks TLS, and then
+  -- the connection is a fresh octet stream served by the peer's inner script.
+  activePeer : Bool := false            -- the peer is a live process: once it has gone away, writes fail
+  inner : Option (List (Option Bytes)) := none   -- what the peer serves inside TLS (`none`: it does not speak TLS)
+  tlsPending : Bool := false            -- STARTTLS was answered 220; the handshake runs at the next write
+  tlsState : String := "none"           -- none | ok | failed
+  plainLog : Bytes := []                -- everything written on the raw socket before TLS
+  innerLog : Bytes := []                -- everything written inside TLS
 deriving Repr, Inhabited
 
+/-- the TLS handshake, run lazily by the first write after STARTTLS -/
+def C.handshake (c : C) : C :=
+  if !c.tlsPending then c else
+  match c.inner with
+  | some sc => { c with tlsPending := false, tlsState := "ok", peer := { script := sc, defRep := [] } }
+  | none => { c with tlsPending := false, tlsState := "failed", connClosed := true }
+
 /-- write to the connection -/
-def C.send (c : C) (bs0 : Bytes) : C × Bool :=
+def C.send (c0 : C) (bs0 : Bytes) : C × Bool :=
+  let c := c0.handshake
   let bs := c.wbuf ++ bs0      -- whatever sits in the writer's buffer goes out first
-  if c.connClosed then ({ c with wbuf := [] }, false)
-  else ({ c with peer := c.peer.feed bs, out := c.out ++ bs, wbuf := [] }, true)
+  if c.connClosed || (c.activePeer && c.peer.eof) then ({ c with wbuf := [] }, false)
+  else ({ c with peer := c.peer.feed bs, out := c.out ++ bs, wbuf := [],
+                 plainLog := if c.tlsState == "ok" then c.plainLog else c.plainLog ++ bs,
+                 innerLog := if c.tlsState == "ok" then c.innerLog ++ bs else c.innerLog }, true)
 
 /-- `Client.readResponse(expect)` -/
 def C.read (c : C) (expect : Nat) : C × RR :=
@@ -352,6 +371,18 @@ def C.hello (c : C) : C × Option CErr :=
           | (c, r) => ({ c with helloErr := rrErr r }, rrErr r)
         else ({ c with helloErr := some (.smtp e) }, some (.smtp e))
       | (c, r) => ({ c with helloErr := rrErr r }, rrErr r)
+
+/-- `initStartTLS` + `startTLS` (NewClientStartTLS, DialStartTLS): EHLO, STARTTLS only if offered, and after a 220
+    a new connection state: the buffered plaintext is dropped with the old reader and EHLO will be sent again -/
+def C.initStartTLS (c : C) : C × Option CErr :=
+  match c.hello with
+  | (c, some e) => (c, some e)
+  | (c, none) =>
+    if !hasExt c.ext "STARTTLS" then (c, some .other)
+    else match c.cmd 220 "STARTTLS".b with
+      | (c, .ok _ _) =>
+        ({ c with tlsPending := true, didHello := false, peer := { c.peer with readable := [] } }, none)
+      | (c, r) => (c, rrErr r)
 
 inductive Call
   | hello (name : Bytes)
@@ -520,5 +551,31 @@ def C.call (c0 : C) (call : Call) : C × CallRes :=
       let (c, r) := c.cmd 0 line
       let (c, e, seen) := authLoop (steps.length + 2) c r steps []
       (c, { written := c.out, res := showErr e, extra := [String.intercalate "+" seen] })
+
+/-- run calls until one fails: the result of the failing call, or `nil` -/
+def runUntilErr (c : C) : List Call → C × String
+  | [] => (c, "nil")
+  | call :: rest =>
+    let (c, r) := c.call call
+    if r.res == "nil" then runUntilErr c rest else (c, r.res)
+
+/-- the package-level `SendMail(addr, auth, from, to, r)`: validate, DialStartTLS, AUTH if asked, the transaction, QUIT -/
+def sendMail (c : C) (auth : Bool) (frm : Bytes) (to : List Bytes) (body : Bytes) : C × String :=
+  if !validLine frm || to.any (fun t => !validLine t) then (c, "err") else
+  match c.initStartTLS with
+  | (c, some e) => (c, showErr (some e))
+  | (c, none) =>
+    let authStep : C × Option String :=
+      if auth then
+        let (c, r) := c.call (.ext "AUTH".b)
+        if r.res.startsWith "true" then
+          let (c, r) := c.call (.auth "PLAIN".b (some [0, 117, 115, 101, 114, 0, 115, 101, 99, 114, 101, 116]) [])
+          (c, if r.res == "nil" then none else some r.res)
+        else (c, some "err")
+      else (c, none)
+    match authStep with
+    | (c, some e) => (c, e)
+    | (c, none) =>
+      runUntilErr c ([Call.mail frm none] ++ to.map (fun t => Call.rcpt t none) ++ [.data, .write body, .close, .quit])
 
 end SmtpV.Client
